@@ -62,7 +62,7 @@ Query(g, d, strat, ms) == /\ UNCHANGED <<prog, facts>>
 (* a query on the persistent engine (C11): must agree with a fresh engine on the same facts *)
 PQuery(g, d, strat, neg, ms) ==
                        /\ UNCHANGED <<prog, facts>>
-                       /\ last' = [op |-> "pquery", gf |-> g[1], gv |-> g[2], depth |-> d, strat |-> strat, neg |-> neg, maxsol |-> ms]
+                       /\ last' = [op |-> "pquery", gf |-> g[1], gv |-> g[2], depth |-> d, strat |-> strat, neg |-> neg, maxsol |-> ms, rete |-> FALSE]
 
 Next == /\ nops' = nops + 1
         /\ \/ \E r \in RuleSet : AddRule(r)
@@ -79,9 +79,16 @@ P2 == << [body |-> [k |-> "and", a |-> <<"A", "T">>, b |-> <<"B", "F">>], hf |->
 P3 == << [body |-> [k |-> "or",  a |-> <<"A", "T">>, b |-> <<"B", "T">>], hf |-> "C", hv |-> "T", bad |-> FALSE],
          [body |-> [k |-> "one", a |-> <<"C", "T">>, b |-> <<"C", "T">>], hf |-> "A", hv |-> "T", bad |-> FALSE] >>
 InitC11 == /\ prog = InitProg /\ facts = [f \in Fields |-> "abs"] /\ nops = 0 /\ last = [op |-> "init"]
+(* with a RETE engine attached to the persistent engine: queries insert their derivations there logically; *)
+(* RRetract retracts facts in that RETE engine (the caller's fact store is not touched)                     *)
+RQuery(g, d, strat) == /\ UNCHANGED <<prog, facts>>
+                       /\ last' = [op |-> "pquery", gf |-> g[1], gv |-> g[2], depth |-> d, strat |-> strat, neg |-> FALSE, maxsol |-> 1, rete |-> TRUE]
+RRetract(k) == /\ UNCHANGED <<prog, facts>> /\ last' = [op |-> "rretract", k |-> k]
 NextC11 == /\ nops' = nops + 1
            /\ \/ \E f \in Fields, v \in Bools \cup {"abs"} : SetFact(f, v)
               \/ \E g \in Atoms, d \in Depths, s \in Strategies, ng \in BOOLEAN, ms \in MaxSols : PQuery(g, d, s, ng, ms)
+              \/ \E g \in Atoms, d \in Depths : RQuery(g, d, "dfs")
+              \/ \E k \in 1..2 : RRetract(k)
 
 (* ---- sanity of the oracle itself (L1) ---- *)
 HeightImpliesMay == \A g \in Atoms, d \in Depths : g \in Within(prog, facts, d) => g \in May(prog, facts)
@@ -91,6 +98,7 @@ Reach_MayNotMust == ~(\E g \in Atoms : g \in May(prog, facts) /\ ~(\E d \in 0..4
 
 Obs == CASE last.op = "query"  -> [sound |-> TRUE, complete |-> TRUE, untouched |-> TRUE]
          [] last.op = "pquery" -> [agrees |-> TRUE]
+         [] last.op = "rretract" -> [ok |-> TRUE]
          [] OTHER -> [ok |-> TRUE]
 Bound == nops <= MaxOps
 View == <<prog, facts>>
